@@ -4,7 +4,7 @@ Import ListNotations.
 Require Import GV.Model.J1939 GV.Model.Governor GV.Model.Hcu GV.Model.Object GV.Model.HcuUnit
   GV.Spec.C02_spec GV.Spec.C01_spec GV.Proofs.C01_proof
   GV.Model.Units GV.Model.Authority GV.Model.Auth_io GV.Model.C01a_io GV.Proofs.C01_auth
-  GV.Gen.Consts GV.Model.Sched GV.Proofs.Sched_proof.
+  GV.Gen.Consts GV.Model.Sched GV.Proofs.Sched_proof GV.Model.C01r_io GV.Proofs.C01_runtime.
 Local Open Scope Z_scope.
 
 Theorem C01 : forall c, c01_wf c = true -> c01_spec_ok c (c01_model c) = true.
@@ -79,3 +79,35 @@ Theorem C01_time_abstraction : waits_authority = (@nil Z) /\ waits_j1939 = (@con
 Proof. exact (conj w_authority (conj w_j1939 (conj w_hydraulic (conj w_net w_can)))). Qed.
 Check C01_time_abstraction : waits_authority = (@nil Z) /\ waits_j1939 = (@cons Z 7%Z (@cons Z 8%Z (@nil Z))) /\ waits_hydraulic = (@nil Z) /\ waits_net = (@nil Z) /\ waits_can = (@nil Z).
 Print Assumptions C01_time_abstraction.
+
+(* ---- the same through the runtime model (Model/C01r_io.v): commands are PUBLISHED on the bounded command
+   channel and reach the drivers only when the command task takes them; a burst the task has not taken
+   keeps its newest QUEUE_SIZE_COMMAND objects, the task goes on.  For ANY driver configuration and ANY
+   history of published objects, runs-until-blocked and cycles, each hydraulic-unit driver's register holds
+   the most recent DELIVERED motion command and the next cycle re-sends exactly its encoding ---- *)
+Theorem C01_runtime_reasserts : forall addr nm cs evs,
+  let a := fst (rafter (rstart addr nm cs) [] evs) in
+  forall it now, In it (a_items a) -> i_kind it = KHcu ->
+    item_tick_frames it now = encode_motion (u_da (i_cfg it)) (u_sa (i_cfg it)) (r_accepted StopAll [] evs).
+Proof. exact runtime_reasserts. Qed.
+Check C01_runtime_reasserts : forall addr nm cs evs,
+  let a := fst (rafter (rstart addr nm cs) [] evs) in
+  forall it now, In it (a_items a) -> i_kind it = KHcu ->
+    item_tick_frames it now = encode_motion (u_da (i_cfg it)) (u_sa (i_cfg it)) (r_accepted StopAll [] evs).
+Print Assumptions C01_runtime_reasserts.
+(* ... and a stop-all followed by fewer than the capacity non-motion objects is what every later cycle
+   asserts, whatever was published before it and however much of that an overrun skipped *)
+Theorem C01_final_stop_all_is_reasserted : forall addr nm cs evs before after,
+  forallb (fun o => negb (is_motion o)) after = true -> (length after < qcap)%nat ->
+  snd (rafter (rstart addr nm cs) [] evs) = before ->
+  let a := fst (rafter (rstart addr nm cs) [] (evs ++ map RSend (OMotion StopAll :: after) ++ [RSettle])) in
+  forall it now, In it (a_items a) -> i_kind it = KHcu ->
+    item_tick_frames it now = encode_motion (u_da (i_cfg it)) (u_sa (i_cfg it)) StopAll.
+Proof. exact final_stop_all_is_reasserted. Qed.
+Check C01_final_stop_all_is_reasserted : forall addr nm cs evs before after,
+  forallb (fun o => negb (is_motion o)) after = true -> (length after < qcap)%nat ->
+  snd (rafter (rstart addr nm cs) [] evs) = before ->
+  let a := fst (rafter (rstart addr nm cs) [] (evs ++ map RSend (OMotion StopAll :: after) ++ [RSettle])) in
+  forall it now, In it (a_items a) -> i_kind it = KHcu ->
+    item_tick_frames it now = encode_motion (u_da (i_cfg it)) (u_sa (i_cfg it)) StopAll.
+Print Assumptions C01_final_stop_all_is_reasserted.
